@@ -82,6 +82,24 @@ pub fn specs(tier: &str) -> Vec<ExpSpec> {
     for ft in [FatType::Fat12, FatType::Fat16, FatType::Fat32] {
         let cfg = vol::tiny_with(ft, 7, 16);
         v.push(ExpSpec::new(cfg.clone(), alphabet(512), if th { 8 } else { 5 }));
+        // full volume whose next-free hint sits in the middle, just above the cluster that the explored history
+        // frees first: the allocation scan has to fail at the end and wrap around to the clusters below the hint
+        let mut c2 = cfg.clone();
+        c2.name = format!("{}-holes", c2.name);
+        let r = DirRef::Root;
+        let prefix = vec![
+            Op::CreateFile { base: r, path: "f".into(), keep: Some(0) },
+            Op::Write { h: 0, len: 512 },
+            Op::CreateFile { base: r, path: "g".into(), keep: Some(1) },
+            Op::Write { h: 1, len: 1 },
+            Op::CreateFile { base: r, path: "h".into(), keep: Some(2) },
+            Op::Fill { h: 2, max: 16 },
+            Op::DropFile { h: 1 },
+            Op::Remove { base: r, path: "g".into() },
+            Op::CreateFile { base: r, path: "g".into(), keep: Some(1) },
+            Op::Write { h: 1, len: 1 },
+        ];
+        v.push(ExpSpec::new(c2, alphabet(512), if th { 6 } else { 4 }).with_prefix(prefix));
         if ft == FatType::Fat32 {
             let g = {
                 let st = DevState::new(cfg.base.clone());
